@@ -531,6 +531,7 @@ def run(scn):
     fresh_cache = {}
     first_error = {}  # targets tuple -> exc of the first failure
     retry_state = {}  # call key -> (exc, (design version, installed elaborator))
+    dirty_failed = {}  # call key -> design version at which a dirty (rewriting) fault fired in it
     refusable = set()  # offending modules and the modules that contained one when it failed
     offenders = set()
     installed = None  # the currently installed fault op
@@ -605,7 +606,13 @@ def run(scn):
             failed_calls += 1
         # ---- verdicts
         ver_now = (_design_version(ops, k), str(installed))
-        if o["ok"] and key in retry_state and retry_state[key][1] == ver_now:
+        if o.get("fault_fired") and installed and installed[1] == "boundary" and installed[4]:
+            # a rewriting pass failed half-way through the offender: this very call can never
+            # succeed again on this design, whatever elaborator is installed later
+            dirty_failed[key] = _design_version(ops, k)
+        if o["ok"] and dirty_failed.get(key) == _design_version(ops, k):
+            res["findings"].append({"prop": "C08", "clause": "failed-call-succeeds-on-retry", "detail": [f"call #{k} {op} failed before in a pass that had half-rewritten a module of it, and now succeeds on the unchanged design"], "at": k})
+        elif o["ok"] and key in retry_state and retry_state[key][1] == ver_now:
             # the very same call failed before and nothing changed since (same design, same
             # elaborator): it must report the original error again, not succeed
             res["findings"].append({"prop": "C08", "clause": "failed-call-succeeds-on-retry", "detail": [f"call #{k} {op} failed before with {retry_state[key][0]} and now succeeds although nothing changed"], "at": k})
